@@ -31,7 +31,7 @@ def deco(f):
 
 KINDS = ['assign', 'print', 'print2', 'expr', 'printexpr', 'none', 'multi', 'compound', 'def', 'semicolon']
 # the richer statement grammar of the C01 program generator (C01, C18, C19, C20)
-MORE_KINDS = ['await_expr', 'augassign', 'for', 'while', 'with', 'try', 'decodef', 'class', 'literal_comment', 'triple', 'triple_unprefixed', 'triple_blank', 'triple_trailing_ws', 'triple_late_unprefixed',
+MORE_KINDS = ['await_expr', 'unawaited_coro', 'augassign', 'for', 'while', 'with', 'try', 'decodef', 'class', 'literal_comment', 'triple', 'triple_unprefixed', 'triple_blank', 'triple_trailing_ws', 'triple_late_unprefixed',
               'import', 'comment', 'async_await', 'async_for', 'async_with']
 ALL_KINDS = KINDS + MORE_KINDS
 
@@ -141,6 +141,12 @@ class Stmt:
             self.starts = [0, 2]
             self.is_expr = True
             self.val = str(k + 2000)
+        elif kind == 'unawaited_coro':
+            # calling an async function without awaiting it runs none of its body; the value is the coroutine object
+            self.lines = ['async def cu%d():' % k, "    print('cu%d body', t(%d))" % (k, k + 5000), '    return 7', 'cu%d()' % k]
+            self.starts = [0, 3]
+            self.is_expr = True
+            self.val = '<coroutine object cu%d at 0x...>' % k
         elif kind == 'async_for':
             self.lines = ['async def ag%d():' % k, '    yield t(%d)' % k, 'async for z%d in ag%d():' % (k, k), "    print('ag%d', z%d)" % (k, k)]
             self.starts = [0, 2]
